@@ -57,7 +57,7 @@ def _case(draw):
     decades = draw(st.sampled_from([0.5, 1.0, 3.0]))
     c1 = (10.0 ** rng.uniform(-decades, decades, size=m)).tolist()
     c2 = (10.0 ** rng.uniform(-decades, decades, size=m)).tolist()
-    if draw(st.integers(0, 9)) == 0:
+    if draw(st.sampled_from([True] + [False] * 9)):
         c2 = [2.5 * v for v in c1]
     a = 10.0 ** draw(st.floats(-1, 1))
     b = 10.0 ** draw(st.floats(-1, 1))
